@@ -221,3 +221,91 @@ func earlyExit(ctx *gate.Ctx, fn *ssa.Function, h, bodyEntry *ssa.BasicBlock) st
 	}
 	return ""
 }
+
+// dominatedByGates: every path from the entry of fn to a call matching
+// calleePat (with argument patterns) passes each gate.
+func (e *Env) dominatedByGates(rule string, fn *ssa.Function, cfg gcfg, calleePat string, argPats []string, gates ...gate.Gate) {
+	if fn == nil {
+		return
+	}
+	name := load.FuncName(fn)
+	stop := map[*ssa.BasicBlock]bool{}
+	for _, b := range fn.Blocks {
+		for _, in := range b.Instrs {
+			c, ok := in.(ssa.CallInstruction)
+			if !ok || !prov.Match(calleePat, prov.CalleeName(c.Common())) {
+				continue
+			}
+			var args []ssa.Value
+			if c.Common().IsInvoke() {
+				args = append(args, c.Common().Value)
+			}
+			args = append(args, c.Common().Args...)
+			match := true
+			for i, p := range argPats {
+				if p == "" {
+					continue
+				}
+				if i >= len(args) || !prov.Match(p, prov.Of(args[i])) {
+					match = false
+				}
+			}
+			if match {
+				stop[b] = true
+			}
+		}
+	}
+	if len(stop) == 0 {
+		e.R.Fail(rule, name+":site("+calleePat+")", e.P.Pos(fn.Pos()), "no call to "+calleePat+" with arguments ("+strings.Join(argPats, ", ")+") found")
+		return
+	}
+	ctx := gate.New(e.P, e.P.VTA(), cfg.assume...)
+	for _, g := range gates {
+		key := name + ":before(" + calleePat + "):" + g.Key
+		// exits are irrelevant: ask for an outcome no return can have
+		_, w := ctx.EstablishedFrom(fn, fn.Blocks[0], gate.Outcome{Kind: gate.NonNil, Idx: 1 << 20}, g, stop)
+		reached := false
+		for _, line := range w {
+			if strings.HasPrefix(line, "reaches block") {
+				reached = true
+			}
+		}
+		// the gate may be established inside the stop block itself, before the call: not accepted (fail closed)
+		if !reached {
+			x := e.R.OK(rule, key, e.P.Pos(fn.Pos()), "every path to the call passes "+g.Desc)
+			x.Config = cfg.name
+		} else {
+			x := e.R.Fail(rule, key, e.P.Pos(fn.Pos()), "the call to "+calleePat+" is reachable without passing "+g.Desc, w...)
+			x.Config = cfg.name
+		}
+	}
+}
+
+// callOrder: in fn, a call matching first (callee + args) executes before a
+// call matching second on every path reaching the latter.
+func (e *Env) callOrder(rule, key string, fn *ssa.Function, first, second gate.Gate, what string) {
+	if fn == nil {
+		return
+	}
+	var a, b ssa.Instruction
+	for _, blk := range fn.Blocks {
+		for _, in := range blk.Instrs {
+			if first.Instr(in) && a == nil {
+				a = in
+			}
+			if second.Instr(in) && b == nil {
+				b = in
+			}
+		}
+	}
+	k := load.FuncName(fn) + ":" + key
+	if a == nil || b == nil {
+		e.R.Fail(rule, k, e.P.Pos(fn.Pos()), "cannot find both calls ("+first.Desc+" / "+second.Desc+")")
+		return
+	}
+	if before(a, b) {
+		e.R.OK(rule, k, e.P.InstrPos(b), what)
+	} else {
+		e.R.Fail(rule, k, e.P.InstrPos(b), "order violated: "+what)
+	}
+}
